@@ -16,7 +16,8 @@ META = {
 
 def run(ctx, res):
     prog = ctx.prog("K0")
-    m = framing.rules_new(prog, res, want=())
+    import engine
+    m = framing.rules_new(prog, engine.Filtered(res, {"A-shape", "A-out", "N-pres", "D-len", "D-idx"}))
     if m.ok and len(m.oks) == 1:
         framing.rule_n_pres(prog, res, m)
         framing.rule_d_len(prog, res, m)
